@@ -214,6 +214,8 @@ void FlexPath::transform(double magnification, bool x_reflection, double rotatio
     }
     Vec2 wo_scale = {1, magnification};
     if (scale_width) wo_scale.x = magnification;
+    // Offsets are measured to the left of the path direction: a reflection swaps sides
+    if (x_reflection) wo_scale.y = -wo_scale.y;
     FlexPathElement* el = elements;
     for (uint64_t ne = 0; ne < num_elements; ne++, el++) {
         el->end_extensions *= magnification;
